@@ -165,7 +165,7 @@ Definition with_dumps (O : oracles) (f : pv -> res str) : oracles :=
   {| o_mac := o_mac O; o_cbc_enc := o_cbc_enc O; o_cbc_dec := o_cbc_dec O; o_gcm_enc := o_gcm_enc O;
      o_gcm_dec := o_gcm_dec O; o_cc_enc := o_cc_enc O; o_cc_dec := o_cc_dec O;
      o_kw_wrap := o_kw_wrap O; o_kw_unwrap := o_kw_unwrap O; o_rsa_enc := o_rsa_enc O;
-     o_rsa_dec := o_rsa_dec O; o_pbkdf2 := o_pbkdf2 O; o_ckdf := o_ckdf O; o_ecdh := o_ecdh O;
+     o_rsa_dec := o_rsa_dec O; o_rsa_bits := o_rsa_bits O; o_pbkdf2 := o_pbkdf2 O; o_ckdf := o_ckdf O; o_ecdh := o_ecdh O;
      o_import := o_import O; o_loads := o_loads O; o_dumps := f;
      o_deflate := o_deflate O; o_inflate := o_inflate O; o_check_header := o_check_header O |}.
 
